@@ -179,7 +179,11 @@ func VerifH_C16_rules() {
 	if vf.Param("twin", 0) == 1 {
 		want = !want
 	}
-	vf.Assert(r.isMatch(ev) == want, "rule-matches-iff-all-conditions-hold")
+	var got bool
+	// the rules are shared by the processors without a lock: matching must not write to a rule
+	writes := vf.SharedWrites(r, func() { got = r.isMatch(ev) })
+	vf.Assert(writes == 0, "matching-does-not-write-to-the-shared-rule")
+	vf.Assert(got == want, "rule-matches-iff-all-conditions-hold")
 	if want {
 		vf.Reach("rule-matched")
 	}
